@@ -10,6 +10,11 @@ import json, os, shutil, subprocess, sys, glob, time
 ROOT = os.path.dirname(os.path.dirname(os.path.abspath(__file__)))
 REPO = "/repo"
 SEED = "/tmp/seed"
+WAVE = ""
+for _i, _a in enumerate(sys.argv):
+    if _a == "--wave" and _i + 1 < len(sys.argv):
+        WAVE = sys.argv[_i + 1]
+        SEED = "/tmp/seed" + WAVE
 IDS = [f"C{i:02d}" for i in range(1, 20)]
 
 def sh(cmd, cwd=None, timeout=3600):
@@ -53,7 +58,7 @@ def confirm(pid, x):
     return res
 
 def evaluate(pid, x, run_all, do_confirm):
-    name = f"{pid}-{x}"
+    name = f"{pid}-{WAVE}{x}"
     src = os.path.join(SEED, pid, "out", x)
     dst = os.path.join(ROOT, "seeded", name)
     os.makedirs(dst, exist_ok=True)
@@ -97,12 +102,13 @@ def evaluate(pid, x, run_all, do_confirm):
     print(name, "confirm:", meta.get("confirmation"), "checks:", results, flush=True)
 
 def main():
-    args = [a for a in sys.argv[1:] if not a.startswith("--")]
+    args = [a for a in sys.argv[1:] if not a.startswith("--") and a != WAVE]
     run_all = "--all" in sys.argv
     do_confirm = "--no-confirm" not in sys.argv
-    names = args or sorted(f"{os.path.basename(os.path.dirname(os.path.dirname(p)))}-{os.path.basename(p)}" for p in glob.glob(f"{SEED}/C*/out/[AB]"))
+    names = args or sorted(f"{os.path.basename(os.path.dirname(os.path.dirname(p)))}-{os.path.basename(p)}" for p in glob.glob(f"{SEED}/C*/out/[ABC]"))
     for n in names:
         pid, x = n.split("-")
+        x = x[len(WAVE):] if WAVE and x.startswith(WAVE) else x
         evaluate(pid, x, run_all, do_confirm)
 
 if __name__ == "__main__":
